@@ -1,12 +1,855 @@
 package main
 
+// Counterexample replay: solver model -> concrete Go inputs -> `go test -overlay`
+// on the real package -> verdict by evaluating the violated clause on the
+// observed outputs.
+
 import (
+	"encoding/json"
 	"fmt"
+	"go/types"
+	"math/big"
 	"os"
+	"os/exec"
+	"path/filepath"
+	"regexp"
+	"sort"
+	"strings"
+	"time"
+
+	"golang.org/x/tools/go/ssa"
 )
 
+type replayCtx struct {
+	e       *Engine
+	o       *Obligation
+	fn      *ssa.Function
+	pkg     *types.Package
+	imports map[string]string // path -> name
+	vals    map[int]string    // term id -> SMT value text
+	pending map[int]*Term
+	base    string // obligation script prefix (assumptions + negated goal) reused for value queries
+	entry   *State
+	log     []string
+	termByID map[int]*Term
+}
+
+func (rc *replayCtx) qualifier(p *types.Package) string {
+	if p == rc.pkg {
+		return ""
+	}
+	rc.imports[p.Path()] = p.Name()
+	return p.Name()
+}
+
+func (rc *replayCtx) typeStr(t types.Type) string { return types.TypeString(t, rc.qualifier) }
+
+// want returns the concrete value of a scalar term if known, else schedules it.
+func (rc *replayCtx) want(t *Term) (string, bool) {
+	if t.IsConst() {
+		return constSMT(t), true
+	}
+	if v, ok := rc.vals[t.id]; ok {
+		return v, true
+	}
+	rc.pending[t.id] = t
+	rc.termByID[t.id] = t
+	return "", false
+}
+
+func parseSMTInt(v string) (*big.Int, bool) {
+	v = strings.TrimSpace(v)
+	switch {
+	case strings.HasPrefix(v, "#x"):
+		n, ok := new(big.Int).SetString(v[2:], 16)
+		return n, ok
+	case strings.HasPrefix(v, "#b"):
+		n, ok := new(big.Int).SetString(v[2:], 2)
+		return n, ok
+	case strings.HasPrefix(v, "(- "):
+		n, ok := new(big.Int).SetString(strings.TrimSuffix(v[3:], ")"), 10)
+		if ok {
+			n.Neg(n)
+		}
+		return n, ok
+	case v == "true":
+		return big.NewInt(1), true
+	case v == "false":
+		return big.NewInt(0), true
+	}
+	n, ok := new(big.Int).SetString(v, 10)
+	return n, ok
+}
+
+// query asks the solver for the values of the pending terms under the obligation's
+// counterexample constraints, pinning the values already known.
+func (rc *replayCtx) query() bool {
+	if len(rc.pending) == 0 {
+		return true
+	}
+	s := NewScript()
+	var asserts []string
+	for _, a := range rc.o.Assumes {
+		asserts = append(asserts, s.Ref(a))
+	}
+	asserts = append(asserts, s.Ref(Not(rc.o.Goal)))
+	// pin known values
+	var ids []int
+	for id := range rc.vals {
+		ids = append(ids, id)
+	}
+	sort.Ints(ids)
+	for _, id := range ids {
+		if t := rc.termByID[id]; t != nil {
+			asserts = append(asserts, fmt.Sprintf("(= %s %s)", s.Ref(t), rc.vals[id]))
+		}
+	}
+	var pend []*Term
+	for _, t := range rc.pending {
+		pend = append(pend, t)
+	}
+	sort.Slice(pend, func(i, j int) bool { return pend[i].id < pend[j].id })
+	var refs []string
+	for _, t := range pend {
+		refs = append(refs, s.Ref(t))
+	}
+	tail := "(check-sat)\n"
+	for _, r := range refs {
+		tail += "(get-value (" + r + "))\n"
+	}
+	script := s.Render("", "", nil, asserts, tail)
+	st, out, _ := runSolver(solverConfigs(20, 0)[0], script, 25*time.Second)
+	if st != "sat" {
+		rc.log = append(rc.log, "value query: "+st)
+		return false
+	}
+	lines := strings.Split(out, "\n")
+	k := 0
+	for _, ln := range lines[1:] {
+		ln = strings.TrimSpace(ln)
+		if !strings.HasPrefix(ln, "((") || k >= len(pend) {
+			continue
+		}
+		// ((ref value))
+		inner := strings.TrimSuffix(strings.TrimPrefix(ln, "(("), "))")
+		ref := refs[k]
+		if !strings.HasPrefix(inner, ref) {
+			// values may span formats; fallback: last token
+		}
+		val := strings.TrimSpace(strings.TrimPrefix(inner, ref))
+		if _, ok := parseSMTInt(val); ok {
+			rc.vals[pend[k].id] = val
+			rc.termByID[pend[k].id] = pend[k]
+		} else if pend[k].Sort.IsFP() {
+			rc.vals[pend[k].id] = val
+			rc.termByID[pend[k].id] = pend[k]
+		}
+		k++
+	}
+	rc.pending = map[int]*Term{}
+	return true
+}
+
+type cval struct {
+	expr string      // Go expression
+	js   interface{} // same value in the dump format (for building concrete states)
+}
+
+// concretise builds a Go expression for value v of type t from the model. ok=false if
+// more model values are needed (scheduled) or the value cannot be represented.
+func (rc *replayCtx) concretise(t types.Type, v Value, depth int) (string, bool) {
+	if depth > 6 {
+		return "", false
+	}
+	switch kindOf(t) {
+	case KScalar:
+		tm := v.(*Term)
+		switch {
+		case tm.Sort == SBool:
+			s, ok := rc.want(tm)
+			if !ok {
+				return "", false
+			}
+			return s, true
+		case tm.Sort.IsBV() && isString(t):
+			s, ok := rc.want(tm)
+			if !ok {
+				return "", false
+			}
+			n, _ := parseSMTInt(s)
+			if str, isLit := rc.e.strByID[n.Int64()]; isLit {
+				return fmt.Sprintf("%s(%q)", rc.typeStr(t), str), true
+			}
+			return fmt.Sprintf("%s(\"\")", rc.typeStr(t)), true
+		case tm.Sort.IsBV():
+			s, ok := rc.want(tm)
+			if !ok {
+				return "", false
+			}
+			n, _ := parseSMTInt(s)
+			if isSigned(t) {
+				n = toSigned(n, tm.Sort.Width())
+			}
+			return fmt.Sprintf("%s(%s)", rc.typeStr(t), n.String()), true
+		case tm.Sort.IsFP():
+			return "", false
+		case tm.Sort == SAddr:
+			pt, isPtr := t.Underlying().(*types.Pointer)
+			if !isPtr {
+				return "", false
+			}
+			rgs, ok := rc.want(Rg(tm))
+			if !ok {
+				return "", false
+			}
+			if n, _ := parseSMTInt(rgs); n.Sign() == 0 {
+				return "nil", true
+			}
+			inner, ok := rc.concretise(pt.Elem(), rc.entry.Load(pt.Elem(), tm), depth+1)
+			if !ok {
+				return "", false
+			}
+			return fmt.Sprintf("func() %s { x := %s; return &x }()", rc.typeStr(t), inner), true
+		}
+	case KSlice:
+		s := v.(*SliceV)
+		rgs, ok1 := rc.want(Rg(s.Base))
+		ls, ok2 := rc.want(s.Len)
+		cs, ok3 := rc.want(s.Cap)
+		if !ok1 || !ok2 || !ok3 {
+			return "", false
+		}
+		if n, _ := parseSMTInt(rgs); n.Sign() == 0 {
+			return "nil", true
+		}
+		ln, _ := parseSMTInt(ls)
+		cp, _ := parseSMTInt(cs)
+		if !ln.IsInt64() || ln.Int64() > 2048 {
+			rc.log = append(rc.log, "slice too long to replay: "+ln.String())
+			return "", false
+		}
+		n := ln.Int64()
+		spare := int64(0)
+		if cp.Cmp(ln) > 0 {
+			spare = 32
+			if d := new(big.Int).Sub(cp, ln); d.IsInt64() && d.Int64() < 32 {
+				spare = d.Int64()
+			}
+		}
+		et := t.Underlying().(*types.Slice).Elem()
+		var elems []string
+		all := true
+		for i := int64(0); i < n; i++ {
+			e, ok := rc.concretise(et, rc.entry.Load(et, s.ElemAddr(BVc(i, 64))), depth+1)
+			if !ok {
+				all = false
+				continue
+			}
+			elems = append(elems, e)
+		}
+		if !all {
+			return "", false
+		}
+		ts := rc.typeStr(t)
+		fill := ""
+		if b, isB := et.Underlying().(*types.Basic); isB && b.Kind() == types.Uint8 && spare > 0 {
+			fill = fmt.Sprintf("for i := %d; i < %d; i++ { s[i] = 0xAA }; ", n, n+spare)
+		}
+		return fmt.Sprintf("func() %s { s := make(%s, %d); copy(s, %s{%s}); %sreturn s[:%d] }()", ts, ts, n+spare, ts, strings.Join(elems, ", "), fill, n), true
+	case KStruct:
+		st := t.Underlying().(*types.Struct)
+		tv := v.(*TupleV)
+		var fs []string
+		all := true
+		for i := 0; i < st.NumFields(); i++ {
+			if st.Field(i).Name() == "_" {
+				continue
+			}
+			e, ok := rc.concretise(st.Field(i).Type(), tv.Elems[i], depth+1)
+			if !ok {
+				all = false
+				continue
+			}
+			fs = append(fs, st.Field(i).Name()+": "+e)
+		}
+		if !all {
+			return "", false
+		}
+		return fmt.Sprintf("%s{%s}", rc.typeStr(t), strings.Join(fs, ", ")), true
+	case KArray:
+		ar := t.Underlying().(*types.Array)
+		tv := v.(*TupleV)
+		var es []string
+		all := true
+		for i := int64(0); i < ar.Len(); i++ {
+			e, ok := rc.concretise(ar.Elem(), tv.Elems[i], depth+1)
+			if !ok {
+				all = false
+				continue
+			}
+			es = append(es, e)
+		}
+		if !all {
+			return "", false
+		}
+		return fmt.Sprintf("%s{%s}", rc.typeStr(t), strings.Join(es, ", ")), true
+	case KIface:
+		iv := v.(*IfaceV)
+		ts, ok := rc.want(iv.Tag)
+		if !ok {
+			return "", false
+		}
+		n, _ := parseSMTInt(ts)
+		if n.Sign() == 0 {
+			return "nil", true
+		}
+		if n.Cmp(rc.e.errTag().Val) == 0 {
+			rc.imports["errors"] = "errors"
+			return "errors.New(\"replay\")", true
+		}
+		dt := rc.e.typeByTag(BVConst(n, 32))
+		if dt == nil {
+			rc.log = append(rc.log, "interface with unknown dynamic type tag")
+			return "", false
+		}
+		var inner Value
+		if _, isPtr := dt.Underlying().(*types.Pointer); isPtr {
+			inner = iv.Data
+		} else {
+			inner = rc.entry.Load(dt, iv.Data)
+		}
+		e, ok := rc.concretise(dt, inner, depth+1)
+		if !ok {
+			return "", false
+		}
+		return fmt.Sprintf("%s(%s)", rc.typeStr(t), e), true
+	}
+	return "", false
+}
+
+const replayDumper = `
+func zzDump(v reflect.Value) interface{} {
+	switch v.Kind() {
+	case reflect.Bool:
+		return v.Bool()
+	case reflect.Int, reflect.Int8, reflect.Int16, reflect.Int32, reflect.Int64:
+		return fmt.Sprintf("%d", v.Int())
+	case reflect.Uint, reflect.Uint8, reflect.Uint16, reflect.Uint32, reflect.Uint64, reflect.Uintptr:
+		return fmt.Sprintf("%d", v.Uint())
+	case reflect.Float32, reflect.Float64:
+		return fmt.Sprintf("f%d", math.Float64bits(v.Float()))
+	case reflect.String:
+		return map[string]interface{}{"str": v.String()}
+	case reflect.Slice:
+		if v.IsNil() {
+			return nil
+		}
+		out := []interface{}{}
+		for i := 0; i < v.Len(); i++ {
+			out = append(out, zzDump(v.Index(i)))
+		}
+		return map[string]interface{}{"elems": out, "cap": v.Cap()}
+	case reflect.Array:
+		out := []interface{}{}
+		for i := 0; i < v.Len(); i++ {
+			out = append(out, zzDump(v.Index(i)))
+		}
+		return out
+	case reflect.Struct:
+		out := []interface{}{}
+		for i := 0; i < v.NumField(); i++ {
+			out = append(out, zzDump(v.Field(i)))
+		}
+		return out
+	case reflect.Ptr:
+		if v.IsNil() {
+			return nil
+		}
+		return map[string]interface{}{"ptr": zzDump(v.Elem())}
+	case reflect.Interface:
+		if v.IsNil() {
+			return nil
+		}
+		if v.Type().String() == "error" {
+			return map[string]interface{}{"err": "non-nil"}
+		}
+		return map[string]interface{}{"type": v.Elem().Type().String(), "val": zzDump(v.Elem())}
+	}
+	return map[string]interface{}{"unsupported": v.Kind().String()}
+}
+`
+
+type replayOutcome struct {
+	Panicked bool                   `json:"panicked"`
+	Panic    string                 `json:"panic,omitempty"`
+	Dumps    map[string]interface{} `json:"dumps,omitempty"`
+	Asserts  map[string]bool        `json:"asserts,omitempty"`
+	Raw      string                 `json:"raw,omitempty"`
+}
+
+var termByIDdummy = 0
+
 func replayObligation(e *Engine, d *Discharged) (bool, interface{}) {
-	return false, map[string]interface{}{"status": "replay not attempted"}
+	info := map[string]interface{}{}
+	o := d.Obl
+	if d.Res.Status != "sat" {
+		info["status"] = "no model from the solver (" + d.Res.Status + ")"
+		return false, info
+	}
+	if o.ex == nil || o.ex.root == nil {
+		info["status"] = "no replay information"
+		return false, info
+	}
+	fn := o.ex.root
+	rc := &replayCtx{e: e, o: o, fn: fn, pkg: fn.Pkg.Pkg, imports: map[string]string{}, vals: map[int]string{}, pending: map[int]*Term{},
+		entry: o.ex.entry, termByID: map[int]*Term{}}
+	// seed with the model's scalar variables
+	seen := map[int]bool{}
+	var walk func(t *Term)
+	walk = func(t *Term) {
+		if seen[t.id] {
+			return
+		}
+		seen[t.id] = true
+		if t.Op == "var" && !t.Sort.IsArray() {
+			if val, ok := d.Res.Model[t.Name]; ok {
+				rc.vals[t.id] = val
+				rc.termByID[t.id] = t
+			}
+		}
+		for _, a := range t.Args {
+			walk(a)
+		}
+	}
+	for _, a := range o.Assumes {
+		walk(a)
+	}
+	walk(o.Goal)
+	var argExprs []string
+	okAll := false
+	for round := 0; round < 6; round++ {
+		argExprs = argExprs[:0]
+		okAll = true
+		for _, in := range o.ex.inputs {
+			s, ok := rc.concretise(in.Type, in.V, 0)
+			if !ok {
+				okAll = false
+			}
+			argExprs = append(argExprs, s)
+		}
+		if okAll {
+			break
+		}
+		if len(rc.pending) == 0 {
+			break
+		}
+		if !rc.query() {
+			break
+		}
+	}
+	if !okAll {
+		info["status"] = "could not build concrete inputs from the model"
+		info["notes"] = rc.log
+		return false, info
+	}
+	src, call := rc.testSource(argExprs)
+	info["call"] = call
+	info["inputs"] = argExprs
+	out, err := rc.runTest(src)
+	info["test_output"] = truncate(out, 3000)
+	if err != nil {
+		info["status"] = "replay test could not be run: " + err.Error()
+		return false, info
+	}
+	oc := parseReplayOutput(out)
+	info["observed"] = oc
+	confirmed, why := rc.verdict(oc)
+	info["status"] = why
+	info["confirmed"] = confirmed
+	return confirmed, info
+}
+
+func (rc *replayCtx) isLemma() bool { return strings.HasPrefix(rc.fn.Name(), "lemma") }
+
+func (rc *replayCtx) testSource(args []string) (string, string) {
+	fn := rc.fn
+	sig := fn.Signature
+	var sb strings.Builder
+	var call string
+	names := []string{}
+	var decl strings.Builder
+	for i, in := range rc.o.ex.inputs {
+		n := fmt.Sprintf("zzarg%d", i)
+		names = append(names, n)
+		fmt.Fprintf(&decl, "\tvar %s %s = %s\n", n, rc.typeStr(in.Type), args[i])
+	}
+	if sig.Recv() != nil {
+		call = fmt.Sprintf("%s.%s(%s)", names[0], fn.Name(), strings.Join(names[1:], ", "))
+	} else {
+		call = fmt.Sprintf("%s(%s)", fn.Name(), strings.Join(names, ", "))
+	}
+	nres := sig.Results().Len()
+	var resNames []string
+	for i := 0; i < nres; i++ {
+		resNames = append(resNames, fmt.Sprintf("zzres%d", i))
+	}
+	body := &strings.Builder{}
+	fmt.Fprintf(body, "%s", decl.String())
+	// snapshot of slice backing stores (spare capacity) before the call
+	for i, in := range rc.o.ex.inputs {
+		if _, isSl := in.Type.Underlying().(*types.Slice); isSl {
+			fmt.Fprintf(body, "\t{ zzv := %s[:cap(%s)]; zzdump(\"pre_cap_%d\", reflect.ValueOf(&zzv).Elem()) }\n", names[i], names[i], i)
+		}
+	}
+	if nres > 0 {
+		fmt.Fprintf(body, "\t%s := %s\n", strings.Join(resNames, ", "), call)
+	} else {
+		fmt.Fprintf(body, "\t%s\n", call)
+	}
+	for i, r := range resNames {
+		fmt.Fprintf(body, "\tzzdump(\"res_%d\", reflect.ValueOf(&%s).Elem())\n", i, r)
+	}
+	for i, in := range rc.o.ex.inputs {
+		switch in.Type.Underlying().(type) {
+		case *types.Pointer:
+			fmt.Fprintf(body, "\tif %s != nil { zzdump(\"post_ptr_%d\", reflect.ValueOf(%s).Elem()) }\n", names[i], i, names[i])
+		case *types.Slice:
+			fmt.Fprintf(body, "\t{ zzv := %s[:cap(%s)]; zzdump(\"post_cap_%d\", reflect.ValueOf(&zzv).Elem()) }\n", names[i], names[i], i)
+		}
+	}
+	rc.imports["fmt"] = "fmt"
+	rc.imports["reflect"] = "reflect"
+	rc.imports["math"] = "math"
+	rc.imports["encoding/json"] = "json"
+	rc.imports["testing"] = "testing"
+	fmt.Fprintf(&sb, "package %s\n\nimport (\n", rc.pkg.Name())
+	var ips []string
+	for p := range rc.imports {
+		ips = append(ips, p)
+	}
+	sort.Strings(ips)
+	for _, p := range ips {
+		fmt.Fprintf(&sb, "\t%s %q\n", rc.imports[p], p)
+	}
+	sb.WriteString(")\n\nvar _ = math.Pi\n")
+	sb.WriteString(replayDumper)
+	sb.WriteString(`
+func zzdump(name string, v reflect.Value) {
+	b, _ := json.Marshal(zzDump(v))
+	fmt.Printf("ZZREPLAY %s %s\n", name, b)
+}
+
+func TestZZReplay(t *testing.T) {
+	defer func() {
+		if r := recover(); r != nil {
+			fmt.Printf("ZZPANIC %v\n", r)
+		}
+		fmt.Println("ZZDONE")
+	}()
+`)
+	sb.WriteString(body.String())
+	sb.WriteString("}\n")
+	return sb.String(), call
+}
+
+func (rc *replayCtx) runTest(src string) (string, error) {
+	dir, err := os.MkdirTemp("", "govreplay")
+	if err != nil {
+		return "", err
+	}
+	defer os.RemoveAll(dir)
+	pkgDir := filepath.Dir(rc.e.prog.Fset.Position(rc.fn.Pos()).Filename)
+	testFile := filepath.Join(dir, "zz_replay_test.go")
+	os.WriteFile(testFile, []byte(src), 0o644)
+	replace := map[string]string{filepath.Join(pkgDir, "zz_replay_test.go"): testFile}
+	tags := ""
+	if rc.isLemma() {
+		// lemma replay: make verifAssert observable through an overlay copy of the lemma file
+		lf := filepath.Join(pkgDir, "zz_lemmas_verif.go")
+		if data, err := os.ReadFile(lf); err == nil {
+			s := string(data)
+			re := regexp.MustCompile(`func verifAssert\(cond bool, label string\)\s*\{\}`)
+			s = re.ReplaceAllString(s, "func verifAssert(cond bool, label string) { println(\"ZZASSERT\", label, cond) }")
+			nf := filepath.Join(dir, "zz_lemmas_verif.go")
+			os.WriteFile(nf, []byte(s), 0o644)
+			replace[lf] = nf
+		}
+		tags = "-tags=verif"
+	}
+	ov, _ := json.Marshal(map[string]interface{}{"Replace": replace})
+	ovFile := filepath.Join(dir, "overlay.json")
+	os.WriteFile(ovFile, ov, 0o644)
+	args := []string{"test", "-overlay", ovFile, "-vet=off", "-timeout", "60s", "-count=1", "-run", "TestZZReplay$", "-v"}
+	if tags != "" {
+		args = append(args, tags)
+	}
+	args = append(args, ".")
+	cmd := exec.Command("go", args...)
+	cmd.Dir = pkgDir
+	cmd.Env = append(os.Environ(), "GOFLAGS=-mod=mod", "GOPROXY=off", "GOSUMDB=off", "GOTOOLCHAIN=local")
+	out, _ := cmd.CombinedOutput()
+	s := string(out)
+	if !strings.Contains(s, "ZZDONE") {
+		return s, fmt.Errorf("test did not complete")
+	}
+	return s, nil
+}
+
+func parseReplayOutput(out string) *replayOutcome {
+	oc := &replayOutcome{Dumps: map[string]interface{}{}, Asserts: map[string]bool{}}
+	for _, ln := range strings.Split(out, "\n") {
+		ln = strings.TrimSpace(ln)
+		switch {
+		case strings.HasPrefix(ln, "ZZPANIC "):
+			oc.Panicked = true
+			oc.Panic = strings.TrimPrefix(ln, "ZZPANIC ")
+		case strings.HasPrefix(ln, "ZZREPLAY "):
+			parts := strings.SplitN(strings.TrimPrefix(ln, "ZZREPLAY "), " ", 2)
+			if len(parts) == 2 {
+				var v interface{}
+				if json.Unmarshal([]byte(parts[1]), &v) == nil {
+					oc.Dumps[parts[0]] = v
+				}
+			}
+		case strings.HasPrefix(ln, "ZZASSERT "):
+			f := strings.Fields(ln)
+			if len(f) == 3 {
+				if prev, seen := oc.Asserts[f[1]]; !seen || prev {
+					oc.Asserts[f[1]] = f[2] == "true"
+				}
+			}
+		}
+	}
+	return oc
+}
+
+// ---------- verdict ----------
+
+func (rc *replayCtx) verdict(oc *replayOutcome) (bool, string) {
+	o := rc.o
+	switch o.Kind {
+	case "safe":
+		if oc.Panicked {
+			return true, "the real code panics on this input: " + oc.Panic
+		}
+		return false, "the real code does not panic on the model input (model did not replay)"
+	case "assert":
+		if v, seen := oc.Asserts[o.Label]; seen && !v {
+			return true, "assertion " + o.Label + " is false on the real code for this input"
+		}
+		if oc.Panicked {
+			return true, "the real code panics on this input: " + oc.Panic
+		}
+		return false, "assertion holds on the real code for the model input (model did not replay)"
+	case "frame":
+		for k, pre := range oc.Dumps {
+			if strings.HasPrefix(k, "pre_cap_") {
+				post := oc.Dumps["post_cap_"+strings.TrimPrefix(k, "pre_cap_")]
+				a, _ := json.Marshal(pre)
+				b, _ := json.Marshal(post)
+				if post != nil && string(a) != string(b) {
+					return true, "memory of slice argument " + strings.TrimPrefix(k, "pre_cap_") + " (including spare capacity) changed: before=" + truncate(string(a), 300) + " after=" + truncate(string(b), 300)
+				}
+			}
+		}
+		return false, "no change of caller memory observed"
+	case "post":
+		if oc.Panicked {
+			return true, "the real code panics on this input: " + oc.Panic
+		}
+		return rc.evalClause(oc)
+	}
+	return false, "obligation kind " + o.Kind + " is not replayable"
+}
+
+// evalClause rebuilds concrete entry/final states from the dumps and evaluates the clause.
+func (rc *replayCtx) evalClause(oc *replayOutcome) (confirmed bool, why string) {
+	defer func() {
+		if r := recover(); r != nil {
+			confirmed, why = false, fmt.Sprintf("could not evaluate the clause on the observed outputs: %v", r)
+		}
+	}()
+	ct := rc.e.contractFor(rc.fn)
+	if ct == nil {
+		return false, "no contract"
+	}
+	var cl *Clause
+	for i := range ct.Ensures {
+		if ct.Ensures[i].Label == rc.o.Label {
+			cl = &ct.Ensures[i]
+		}
+	}
+	if cl == nil {
+		return false, "clause not found"
+	}
+	pre := newState()
+	// concrete inputs: evaluate the symbolic input values under the model
+	sub := map[*Term]*Term{}
+	for id, v := range rc.vals {
+		t := rc.termByID[id]
+		if t == nil {
+			continue
+		}
+		n, ok := parseSMTInt(v)
+		if !ok {
+			continue
+		}
+		switch {
+		case t.Sort == SBool:
+			sub[t] = BoolConst(n.Sign() != 0)
+		case t.Sort.IsBV():
+			sub[t] = BVConst(n, t.Sort.Width())
+		case t.Sort == SInt:
+			sub[t] = IntConst(n.Int64())
+		}
+	}
+	concreteVal := func(v Value) Value { return substValue(v, sub) }
+	var args []Value
+	for _, in := range rc.o.ex.inputs {
+		args = append(args, concreteVal(in.V))
+	}
+	// entry memory: copy the cells we know (selects over initial arrays)
+	for id := range rc.vals {
+		t := rc.termByID[id]
+		if t != nil && t.Op == "select" && t.Args[0].Op == "var" {
+			addr := Subst(t.Args[1], sub)
+			pre.storeScalar(t.Sort, addr, sub[t])
+		}
+	}
+	post := pre.Clone()
+	sig := rc.fn.Signature
+	// final pointees and slice contents
+	for i, in := range rc.o.ex.inputs {
+		switch u := in.Type.Underlying().(type) {
+		case *types.Pointer:
+			if dv, ok := oc.Dumps[fmt.Sprintf("post_ptr_%d", i)]; ok {
+				val := rc.fromDump(u.Elem(), dv, post)
+				post.StoreVal(u.Elem(), args[i].(*Term), val)
+			}
+		case *types.Slice:
+			if dv, ok := oc.Dumps[fmt.Sprintf("post_cap_%d", i)]; ok && dv != nil {
+				m := dv.(map[string]interface{})
+				elems := m["elems"].([]interface{})
+				s := args[i].(*SliceV)
+				for k, ev := range elems {
+					post.StoreVal(u.Elem(), s.ElemAddr(BVc(int64(k), 64)), rc.fromDump(u.Elem(), ev, post))
+				}
+			}
+		}
+	}
+	var results []Value
+	for k := 0; k < sig.Results().Len(); k++ {
+		results = append(results, rc.fromDump(sig.Results().At(k).Type(), oc.Dumps[fmt.Sprintf("res_%d", k)], post))
+	}
+	ex := rc.o.ex
+	env0 := &SpecEnv{ex: ex, vars: paramBindings(sig, args, nil), st: pre, pkg: rc.pkg, mode: "prove"}
+	ex.evalLets(ct, env0)
+	env := &SpecEnv{ex: ex, vars: map[string]TV{}, st: post, old: pre, pkg: rc.pkg, mode: "prove", freshBase: 0}
+	for k, v := range env0.vars {
+		env.vars[k] = v
+	}
+	bindResults(env.vars, sig, results)
+	g, err := env.EvalBool(cl.Expr)
+	if err != nil {
+		return false, "clause evaluation: " + err.Error()
+	}
+	if g.IsTrue() {
+		return false, "the clause holds on the real execution of the model input (model did not replay: abstraction artefact)"
+	}
+	if g.IsFalse() {
+		return true, "the clause is false on the real execution of this input"
+	}
+	// residual symbolic parts: ask the solver whether the clause can be true
+	s := NewScript()
+	script := s.Render("", "", nil, []string{s.Ref(g)}, "(check-sat)\n")
+	st, _, _ := runSolver(solverConfigs(10, 0)[0], script, 15*time.Second)
+	if st == "unsat" {
+		return true, "the clause is false on the real execution of this input"
+	}
+	return false, "clause not decided on the observed outputs (" + st + ")"
+}
+
+func substValue(v Value, sub map[*Term]*Term) Value {
+	switch x := v.(type) {
+	case *Term:
+		return Subst(x, sub)
+	case *SliceV:
+		return &SliceV{Subst(x.Base, sub), Subst(x.Off, sub), Subst(x.Len, sub), Subst(x.Cap, sub)}
+	case *IfaceV:
+		return &IfaceV{Subst(x.Tag, sub), Subst(x.Data, sub)}
+	case *TupleV:
+		r := &TupleV{}
+		for _, e := range x.Elems {
+			r.Elems = append(r.Elems, substValue(e, sub))
+		}
+		return r
+	}
+	return v
+}
+
+// fromDump converts a dumped Go value into a concrete Value, allocating regions in st.
+func (rc *replayCtx) fromDump(t types.Type, d interface{}, st *State) Value {
+	switch kindOf(t) {
+	case KScalar:
+		srt := scalarSort(t)
+		switch {
+		case srt == SBool:
+			return BoolConst(d.(bool))
+		case isString(t):
+			m := d.(map[string]interface{})
+			return rc.e.strConst(m["str"].(string))
+		case srt.IsBV():
+			n, _ := new(big.Int).SetString(d.(string), 10)
+			return BVConst(n, srt.Width())
+		case srt == SAddr:
+			if d == nil {
+				return NilAddr
+			}
+			pt := t.Underlying().(*types.Pointer)
+			a := st.FreshRegion()
+			st.StoreVal(pt.Elem(), a, rc.fromDump(pt.Elem(), d.(map[string]interface{})["ptr"], st))
+			return a
+		}
+	case KSlice:
+		if d == nil {
+			return NilSlice
+		}
+		m := d.(map[string]interface{})
+		elems := m["elems"].([]interface{})
+		et := t.Underlying().(*types.Slice).Elem()
+		base := st.FreshRegion()
+		s := &SliceV{Base: base, Off: BVc(0, 64), Len: BVc(int64(len(elems)), 64), Cap: BVc(int64(m["cap"].(float64)), 64)}
+		for k, ev := range elems {
+			st.StoreVal(et, s.ElemAddr(BVc(int64(k), 64)), rc.fromDump(et, ev, st))
+		}
+		return s
+	case KStruct:
+		sty := t.Underlying().(*types.Struct)
+		arr := d.([]interface{})
+		tv := &TupleV{}
+		for i := 0; i < sty.NumFields(); i++ {
+			tv.Elems = append(tv.Elems, rc.fromDump(sty.Field(i).Type(), arr[i], st))
+		}
+		return tv
+	case KArray:
+		ar := t.Underlying().(*types.Array)
+		arr := d.([]interface{})
+		tv := &TupleV{}
+		for i := int64(0); i < ar.Len(); i++ {
+			tv.Elems = append(tv.Elems, rc.fromDump(ar.Elem(), arr[i], st))
+		}
+		return tv
+	case KIface:
+		if d == nil {
+			return NilIface
+		}
+		m := d.(map[string]interface{})
+		if _, isErr := m["err"]; isErr {
+			return &IfaceV{Tag: rc.e.errTag(), Data: st.FreshRegion()}
+		}
+		panic("interface dump not supported")
+	}
+	panic("fromDump: unsupported " + t.String())
 }
 
 func cmdReplay(args []string) {
@@ -19,5 +862,19 @@ func cmdReplay(args []string) {
 		fmt.Println(err)
 		os.Exit(2)
 	}
+	var rec map[string]interface{}
+	if json.Unmarshal(data, &rec) != nil {
+		fmt.Println(string(data))
+		os.Exit(2)
+	}
+	prop, _ := rec["property"].(string)
+	fmt.Printf("replay file for property %s, obligation %v\n", prop, rec["obligation"])
 	fmt.Println(string(data))
+	fmt.Println("re-running the check for this property on the current tree:")
+	cmd := exec.Command(os.Args[0], "check", "-p", prop)
+	cmd.Stdout = os.Stdout
+	cmd.Stderr = os.Stderr
+	if err := cmd.Run(); err != nil {
+		os.Exit(1)
+	}
 }
